@@ -321,7 +321,7 @@ def run_case(case, rec, mon=None):
             pick = list(rng.choice(Ls, size=min(case["n_lengths"], len(Ls)), replace=False))
             for N in pick:
                 dt = np.float32 if rng.random() < 0.15 else np.float64
-                x = gen.signal(rng, int(N), None, dt)
+                x = gen.signal(rng, int(N), None, dt, views=True)
                 x.setflags(write=False)
                 for _ in range(case["n_comps"]):
                     parts = gen.composition(rng, int(N))
@@ -336,7 +336,7 @@ def run_case(case, rec, mon=None):
     elif kind == "fbf":
         fl, fs = comp.frame_length, comp.frame_shift
         for N in case["Ns"]:
-            x = gen.signal(rng, int(N), None)
+            x = gen.signal(rng, int(N), None, views=True)
             x.setflags(write=False)
             outs = []
             for cs in (1, 2, 3, 7, fs, fl, fl + 1, 1024):
